@@ -389,6 +389,9 @@ class Unit:
                     if mp:
                         cprops = [x for x in mp.group(1).split(",") if not d.dep] if not getattr(d, "dep", False) else []
                         c = c[mp.end():]
+                    if cprops is None and d.opts.get("clauseprops") and not getattr(d, "dep", False):
+                        # functional clauses of this function belong to other properties than its safety sites
+                        cprops = d.opts["clauseprops"].split(",")
                     if kw in ("ensures", "invariant", "invariant_except_break", "decreases") and not (extra_false and c == "false"):
                         oid = obl(where + ":" + kw, c, props=cprops)
                     for j, cl in enumerate((c + ",").split("\n")):
